@@ -47,20 +47,24 @@ def Vars.define (vs : Vars) (n v : Bytes) : Vars :=
 
 def refOf (n : Bytes) : Bytes := b!"{{" ++ n ++ b!"}}"
 
-/-- first loop of `expandDefinitions`: visiting name `n` replaces `{{n}}` in every value by the value
-    `n` has at that moment. `ord` is the order in which the Go map yields the names. -/
-def closeVars (ord : List Bytes) (vs : Vars) : Vars :=
-  ord.foldl (fun vs n =>
-    match assocLookup n vs with
-    | some r => vs.map (fun (k, v) => (k, replaceAll v (refOf n) r))
-    | none => vs) vs
+/-- visiting name `n` in the first loop of `expandDefinitions`: `{{n}}` is replaced in every value by the value
+    `n` has at that moment -/
+def closeStep (vs : Vars) (n : Bytes) : Vars :=
+  match assocLookup n vs with
+  | some r => vs.map (fun p => (p.1, replaceAll p.2 (refOf n) r))
+  | none => vs
+
+/-- first loop of `expandDefinitions`; `ord` is the order in which the Go map yields the names. -/
+def closeVars (ord : List Bytes) (vs : Vars) : Vars := ord.foldl closeStep vs
+
+/-- one step of the second loop: apply the definition of `n` to the text -/
+def applyStep (vs : Vars) (src : Bytes) (n : Bytes) : Bytes :=
+  match assocLookup n vs with
+  | some r => replaceAll src (refOf n) r
+  | none => src
 
 /-- second loop: apply every definition to the text, in iteration order `ord` -/
-def applyVars (ord : List Bytes) (vs : Vars) (src : Bytes) : Bytes :=
-  ord.foldl (fun src n =>
-    match assocLookup n vs with
-    | some r => replaceAll src (refOf n) r
-    | none => src) src
+def applyVars (ord : List Bytes) (vs : Vars) (src : Bytes) : Bytes := ord.foldl (applyStep vs) src
 
 /-- `expandDefinitions(src, variables)`: returns the text and the (mutated) map -/
 def expandDefinitions (ord1 ord2 : List Bytes) (src : Bytes) (vs : Vars) : Bytes × Vars :=
